@@ -107,6 +107,31 @@ HISTORY = {
     "C31-verification-code-cache-by-value": "MISSED at first: no two tests asserting equal values of different types on "
                                             "the same variable name -> corpus/equalish.py",
     "C01-kwnames-line-start-skipped": "caught outright (stdlib leg)",
+    "C29-relative-path-cache-key": "caught outright",
+    "C34-difference-update-in-place": "MISSED at first: arguments were never views of the receiver itself -> forms "
+                                      "self / iter(self) / generator and filter over self",
+    "C33-truthiness-restart-gate": "caught outright",
+    "C20-negzero-sign-lost-in-merge": "caught outright",
+    "C26-distance-visitor-rebinds-subtype": "MISSED at first: no union request whose first member is a parametrised "
+                                            "container -> U[list[C0]|C1], hierarchy C2 under C1, second package name "
+                                            "(member order of unions follows the string form), cause tag",
+    "C13-chop-position-hoisted": "MISSED at first: no SUT whose raising statement moves under mutation -> "
+                                 "corpus/shifting.py in the real leg (re-execution oracle)",
+    "C06-root-dependence-memo": "MISSED at first: accessors were queried once, in block order -> other query orders on "
+                                "fresh CDGs + static seed (cold handler after a loop of tries)",
+    "C15-mutate-value-copies-used-vars": "MISSED, still not reported by the quick tier: needs a collection statement, an "
+                                         "element variable in scope, mutate_value choosing that statement AND the "
+                                         "reference branch AND a later delete of the producer (> 3 coordinated "
+                                         "non-default answers; a targeted d=3 exploration of 30 569 executions did "
+                                         "not reach it); full index menus were added on the way",
+    "C30-explicit-seed-not-tracked": "MISSED at first: the SUT had no long-lived Random instance -> module-level "
+                                     "explicitly seeded / default instances",
+    "C22-changed-only-if-deleted-indexes": "MISSED at first: no stateful SUT in the quick tier -> corpus/stateful.py "
+                                           "with call-sequence populations (all sequences of <= 3 accessibles)",
+    "C17-elif-test-executions-condition": "MISSED at first: one budget per cell -> cells with two budgets at once",
+    "C28-relink-only-if-replaced": "MISSED at first: no nested mutation sites in a single-node field -> four menu items",
+    "C24-receiver-chain-root": "MISSED at first: no isinstance/len assertion on a field -> Node class in the nested corpus",
+    "C12-clone-drops-dirty-state": "caught outright",
 }
 
 
